@@ -64,11 +64,35 @@ struct Setup {
     ar_keys: BTreeMap<ArIdentity, ElgSk<ArCurve>>,
 }
 
-fn setup(seed: u64, n: u8, global: &GlobalContext<ArCurve>) -> Setup {
+/// Revoker identities: 1..n, or (large) values spread over the top of the u32 range.
+const LARGE_IDS: [u32; 6] = [u32::MAX, (1 << 31) + 1, u32::MAX - 1, (1 << 22) + 5, 1 << 31, 3_000_000_019];
+fn ar_id(i: usize, large: bool) -> ArIdentity {
+    if large {
+        ArIdentity::new(LARGE_IDS[i])
+    } else {
+        ArIdentity::new(i as u32 + 1)
+    }
+}
+
+fn setup(seed: u64, n: u8, global: &GlobalContext<ArCurve>) -> Setup { setup_ids(seed, n, global, false) }
+
+fn setup_ids(seed: u64, n: u8, global: &GlobalContext<ArCurve>, large: bool) -> Setup {
     let mut r = rng(seed, 8000 + n as u64);
     let ip = test_create_ip_info(&mut r, n, 20);
     let (ars, ar_keys) = test_create_ars(&global.on_chain_commitment_key.g, n, &mut r);
-    Setup { global: global.clone(), ip, ars, ar_keys }
+    if !large {
+        return Setup { global: global.clone(), ip, ars, ar_keys };
+    }
+    // the same revokers under other identities
+    let mut ars2 = BTreeMap::new();
+    let mut keys2 = BTreeMap::new();
+    for (i, (id, mut info)) in ars.into_iter().enumerate() {
+        let nid = ar_id(i, true);
+        info.ar_identity = nid;
+        keys2.insert(nid, ar_keys[&id].clone());
+        ars2.insert(nid, info);
+    }
+    Setup { global: global.clone(), ip, ars: ars2, ar_keys: keys2 }
 }
 
 fn policy_of(alist: &AList, tags: &[u8]) -> Policy<ArCurve, AttributeKind> {
@@ -84,9 +108,12 @@ fn policy_of(alist: &AList, tags: &[u8]) -> Policy<ArCurve, AttributeKind> {
 fn check_cdi(s: &Setup, cdi: &Cdi, noe: &Either<TransactionTime, AccountAddress>) -> bool { verify_cdi(&s.global, &s.ip.public_ip_info, &s.ars, cdi, noe).is_ok() }
 
 /// One configuration: n revokers, threshold t, identity object version.
-fn config(report: &Report, cli: &Cli, global: &GlobalContext<ArCurve>, n: u8, t: u8, v1: bool, table: &BabyStepGiantStep<ArCurve>, with_prf: bool) {
-    let base = json!({"revokers": n, "threshold": t, "identity_object_version": if v1 { 1 } else { 0 }});
-    let s = setup(cli.seed, n, global);
+fn config(report: &Report, cli: &Cli, global: &GlobalContext<ArCurve>, n: u8, t: u8, v1: bool, table: &BabyStepGiantStep<ArCurve>, with_prf: bool, large: bool) {
+    let mut base = json!({"revokers": n, "threshold": t, "identity_object_version": if v1 { 1 } else { 0 }});
+    if large {
+        base["revoker_identities"] = json!(LARGE_IDS[..n as usize]);
+    }
+    let s = setup_ids(cli.seed, n, global, large);
     let id_use = test_create_id_use_data(&mut rng(cli.seed, 8200));
     let ctx = IpContext::new(&s.ip.public_ip_info, &s.ars, &s.global);
     let threshold = Threshold::try_from(t).unwrap();
@@ -145,8 +172,8 @@ fn config(report: &Report, cli: &Cli, global: &GlobalContext<ArCurve>, n: u8, t:
             }
             if n >= 2 {
                 let mut bad = pio.clone();
-                let a = ArIdentity::new(1);
-                let b = ArIdentity::new(2);
+                let a = ar_id(0, large);
+                let b = ar_id(1, large);
                 let xa = bad.ip_ar_data.get(&a).cloned();
                 let xb = bad.ip_ar_data.get(&b).cloned();
                 if let (Some(xa), Some(xb)) = (xa, xb) {
@@ -172,7 +199,7 @@ fn config(report: &Report, cli: &Cli, global: &GlobalContext<ArCurve>, n: u8, t:
                     let shares: Vec<(ArIdentity, Value<ArCurve>)> = subset
                         .iter()
                         .map(|i| {
-                            let id = ArIdentity::new(*i as u32 + 1);
+                            let id = ar_id(*i, large);
                             let d = &pio.ip_ar_data[&id];
                             (id, decrypt_from_chunks_given_table(&s.ar_keys[&id], &d.enc_prf_key_share, table, CHUNK_SIZE))
                         })
@@ -325,7 +352,7 @@ fn config(report: &Report, cli: &Cli, global: &GlobalContext<ArCurve>, n: u8, t:
                             let shares: Vec<(ArIdentity, Message<ArCurve>)> = subset
                                 .iter()
                                 .map(|i| {
-                                    let id = ArIdentity::new(*i as u32 + 1);
+                                    let id = ar_id(*i, large);
                                     (id, s.ar_keys[&id].decrypt(&cdi.values.ar_data[&id].enc_id_cred_pub_share))
                                 })
                                 .collect();
@@ -375,18 +402,18 @@ fn config(report: &Report, cli: &Cli, global: &GlobalContext<ArCurve>, n: u8, t:
     {
         let o = o.clone();
         m!("ar_data[1] of another credential", move |x: &mut Cdi| {
-            x.values.ar_data.insert(ArIdentity::new(1), o.values.ar_data[&ArIdentity::new(1)].clone());
+            x.values.ar_data.insert(ar_id(0, large), o.values.ar_data[&ar_id(0, large)].clone());
         });
     }
     if n >= 2 {
-        m!("ar_data 1 and 2 swapped", |x: &mut Cdi| {
-            let a = x.values.ar_data[&ArIdentity::new(1)].clone();
-            let b = x.values.ar_data[&ArIdentity::new(2)].clone();
-            x.values.ar_data.insert(ArIdentity::new(1), b);
-            x.values.ar_data.insert(ArIdentity::new(2), a);
+        m!("ar_data 1 and 2 swapped", move |x: &mut Cdi| {
+            let a = x.values.ar_data[&ar_id(0, large)].clone();
+            let b = x.values.ar_data[&ar_id(1, large)].clone();
+            x.values.ar_data.insert(ar_id(0, large), b);
+            x.values.ar_data.insert(ar_id(1, large), a);
         });
-        m!("ar_data entry removed", |x: &mut Cdi| {
-            x.values.ar_data.remove(&ArIdentity::new(2));
+        m!("ar_data entry removed", move |x: &mut Cdi| {
+            x.values.ar_data.remove(&ar_id(1, large));
         });
     }
     m!("policy value changed", |x: &mut Cdi| {
@@ -448,7 +475,7 @@ fn config(report: &Report, cli: &Cli, global: &GlobalContext<ArCurve>, n: u8, t:
     {
         let o = o.clone();
         m!("proof_id_cred_pub[1] of another credential", move |x: &mut Cdi| {
-            x.proofs.id_proofs.proof_id_cred_pub.insert(ArIdentity::new(1), o.proofs.id_proofs.proof_id_cred_pub[&ArIdentity::new(1)].clone());
+            x.proofs.id_proofs.proof_id_cred_pub.insert(ar_id(0, large), o.proofs.id_proofs.proof_id_cred_pub[&ar_id(0, large)].clone());
         });
     }
     {
@@ -484,7 +511,7 @@ fn config(report: &Report, cli: &Cli, global: &GlobalContext<ArCurve>, n: u8, t:
         });
     });
     // verification context
-    let s2 = setup(cli.seed + 5, n, global);
+    let s2 = setup_ids(cli.seed + 5, n, global, large);
     let ctx_cases: Vec<(&str, Box<dyn Fn() -> bool + Sync + Send>)> = vec![
         ("other identity provider key", Box::new(|| verify_cdi(&s.global, &s2.ip.public_ip_info, &s.ars, &cdi, &new_acc).is_ok())),
         ("other revoker keys", Box::new(|| verify_cdi(&s.global, &s.ip.public_ip_info, &s2.ars, &cdi, &new_acc).is_ok())),
@@ -495,8 +522,8 @@ fn config(report: &Report, cli: &Cli, global: &GlobalContext<ArCurve>, n: u8, t:
         })),
         ("one revoker key replaced", Box::new(|| {
             let mut ars = s.ars.clone();
-            let other = s2.ars[&ArIdentity::new(1)].clone();
-            ars.insert(ArIdentity::new(1), other);
+            let other = s2.ars[&ar_id(0, large)].clone();
+            ars.insert(ar_id(0, large), other);
             verify_cdi(&s.global, &s.ip.public_ip_info, &ars, &cdi, &new_acc).is_ok()
         })),
     ];
@@ -708,8 +735,11 @@ pub fn run(cli: &Cli) -> ! {
         // PRF-key revocation needs 8 x n chunk decryptions of up to 2^16 giant steps each: one
         // configuration in the quick tier, all of size <= 3 in the thorough tier
         let with_prf = !v1 && if cli.tier == Tier::Quick { n == 2 && t == 2 } else { n <= 3 };
-        config(&report, cli, &global, n, t, v1, &table, with_prf);
+        config(&report, cli, &global, n, t, v1, &table, with_prf, false);
     });
+    // revokers with identities at the top of the u32 range: four and more revealing revokers
+    let large_cfgs: Vec<(u8, u8, bool)> = if cli.tier == Tier::Quick { vec![(4, 2, true), (4, 4, false)] } else { vec![(4, 1, true), (4, 2, true), (4, 4, false), (5, 3, true), (5, 5, true), (6, 4, true)] };
+    large_cfgs.par_iter().for_each(|&(n, t, v1)| config(&report, cli, &global, n, t, v1, &table, false, true));
     let n = report.evaluations.load(std::sync::atomic::Ordering::Relaxed);
     report.state(n);
     report.transition(report.traces.load(std::sync::atomic::Ordering::Relaxed));
